@@ -284,7 +284,7 @@ func build(w *world, c caseA) (*s3c.Req, string, error) {
 	case "copy-source-bucket":
 		r.Set("x-amz-copy-source", encHdr(h))
 	case "copy-source-version":
-		if w.fx.HasVer && c.Dup%2 == 1 {
+		if w.fx.HasVer && c.Dup != 2 {
 			// a source that has versions: the id is joined below that key's directory in the versions store
 			r.Set("x-amz-copy-source", w.fx.BktV+"/"+cat.KeyVer+"?versionId="+encHdr(h))
 		} else {
@@ -521,7 +521,7 @@ func trunc(s string) string {
 }
 
 var paramsByLevel = map[string][]string{
-	"object":  {"key", "key", "key", "bucket", "versionId", "uploadId", "partNumber", "copy-source", "copy-source-bucket", "copy-source-version"},
+	"object":  {"key", "key", "key", "bucket", "versionId", "versionId", "uploadId", "partNumber", "copy-source", "copy-source", "copy-source-bucket", "copy-source-bucket", "copy-source-version", "copy-source-version"},
 	"bucket":  {"bucket", "prefix", "marker", "start-after", "continuation-token", "key-marker", "version-id-marker", "upload-id-marker", "delimiter", "delete-key", "delete-version"},
 	"service": {"prefix", "continuation-token"},
 	"admin":   {"admin-bucket", "admin-owner", "admin-access"},
@@ -560,7 +560,14 @@ func genCase(t *rapid.T) caseA {
 	if strings.HasPrefix(c.Param, "delete-") {
 		c.Spec.Op = "DeleteObjects"
 	}
-	c.Hostile = rapid.OneOf(rapid.SampledFrom(templates), rapid.Custom(func(t *rapid.T) string {
+	// which families of hostile strings suit the parameter: names that resolve elsewhere (templates, free construction)
+	// for all of them; the staging area, other spellings and neighbours of existing names only where a key is expected
+	keyLike := c.Param == "key" || c.Param == "delete-key" || c.Param == "copy-source" || c.Param == "prefix" || c.Param == "marker" || c.Param == "start-after" || c.Param == "key-marker"
+	family := rapid.IntRange(0, 4).Draw(t, "hostile_family")
+	if !keyLike {
+		family = []int{0, 1, 1, 1, 1}[family]
+	}
+	c.Hostile = []*rapid.Generator[string]{rapid.SampledFrom(templates), rapid.Custom(func(t *rapid.T) string {
 		// free construction: up-levels, a sibling directory, a leaf
 		// how many levels lead from the directory the parameter is joined to up to the sandbox area: one for a
 		// parameter joined to the storage root (bucket names), two for a key; that depth gets most of the weight
@@ -587,7 +594,7 @@ func genCase(t *rapid.T) caseA {
 	}), rapid.SampledFrom([]string{
 		// other spellings of names that exist in the bucket: separators doubled, leading, trailing
 		"dir//obj2", "dir///obj2", "dir//obj2", "/obj1", "//obj1", "obj1/", "obj1//", "dir/obj2/", "/dir/obj2", "dir//", "dirobj//"}),
-		rapid.SampledFrom(neighbours)).Draw(t, "hostile")
+		rapid.SampledFrom(neighbours)}[family].Draw(t, "hostile")
 	if rapid.IntRange(0, 7).Draw(t, "neighbourhood") == 0 {
 		// an object operation that names a neighbour of the bucket's objects
 		c.Param = "key"
